@@ -24,13 +24,16 @@ typedef struct {
   char got_text[40];
   int subs;                     /* command()-issued sub commands logged right after "m" */
   int logged_on;
+  int deadw;                    /* its socket never accepts output (EWOULDBLOCK) and answers EPIPE from cycle dead_cycle on */
   int joins;                    /* connects at all (users outside the layout connect and leave during the set-up) */
 } muser;
 static muser U[NU];
+#define MAXSPECIAL 40
 static const char letter[NU] = { 'k', 'a', 'b', 'c', 'n' };
 
 static int w;                   /* wait-hook calls so far */
-static int mid_kind, mid_user, mid_cycle;       /* 0 none, 1 connect, 2 hang-up */
+static int mid_kind, mid_user, mid_cycle;       /* 0 none, 1 connect, 2 hang-up, 3 peer vanishes with output pending (send: EWOULDBLOCK, then EPIPE) */
+static long fl_word; static int full_flags, console_scripts = 6;
 static int selftest, midcycles = 4, force_m;
 static int shutdown_sent, drains;
 static int last_served = -1;    /* for the command()-inside-one-turn check */
@@ -60,6 +63,8 @@ static void line_text (muser *u, int k, char *out) {   /* k = 1.. */
   int ui = (int) (u - U);
   if (k == 1 && u->special == 1 && !u->cmode) strcpy (out, "m");
   else if (k == 1 && u->special == 2 && !u->cmode) strcpy (out, "q");
+  else if (k == 1 && u->special == 3 && !u->cmode) strcpy (out, "i");
+  else if (k == 1 && u->special == 4 && !u->cmode) strcpy (out, "g");
   else sprintf (out, "%c%d", letter[ui], k);
 }
 
@@ -112,7 +117,7 @@ static void on_line (const char *l) {
   muser *u = by_idx (idx);
   if (!u) { fail_hist ("C12:harness-unknown-user", "log line for unknown user index %d", idx); return; }
   int ui = (int) (u - U);
-  if (!strcmp (a, "pi") || !strcmp (a, "gc")) {
+  if (!strcmp (a, "pi") || !strcmp (a, "gc") || !strcmp (a, "it")) {
     if (last_served >= 0 && U[last_served].subs != 0 && U[last_served].subs != 3)
       fail_hist ("C12:command-efun-limited", "user %c ran 'm' but only %d of its three command() calls were executed inside its turn", letter[last_served], U[last_served].subs);
     u->got++;
@@ -177,7 +182,7 @@ static int hook (io_event_t *ev, int max, struct timeval *tmo) {
   end_cycle ();
   /* a buffered complete command must keep the loop from blocking in the wait */
   for (int i = 0; i < NU; i++)
-    if (U[i].live && U[i].connected && has_complete (&U[i]) && tmo && (tmo->tv_sec || tmo->tv_usec))
+    if (U[i].live && U[i].connected && U[i].deadw != 2 && has_complete (&U[i]) && tmo && (tmo->tv_sec || tmo->tv_usec))
       fail_hist ("C12:loop-blocks-with-command-pending", "wait %d is entered with timeout %lds although user %c has a complete command buffered", w, (long) tmo->tv_sec, letter[i]);
   cycle_no = 0;
   if (w < 3) {                                  /* set-up: three clients connect, one per cycle */
@@ -200,6 +205,11 @@ static int hook (io_event_t *ev, int max, struct timeval *tmo) {
         vx_obs ("  user %c hangs up", letter[i]);
         continue;
       }
+      if (mid_kind == 3 && mid_user == i && c >= mid_cycle) {
+        if (u->deadw != 2) vx_obs ("  user %c's peer vanishes (send() answers EPIPE from now on, no event)", letter[i]);
+        u->deadw = 2;             /* nothing more arrives from it; what is already buffered may still be run */
+        continue;
+      }
       char buf[64]; int len = c <= 5 ? arrivals (u, c, buf) : 0;
       if (!len) continue;
       vx_obs ("  user %c sends %d bytes", letter[i], len);
@@ -217,10 +227,10 @@ static int hook (io_event_t *ev, int max, struct timeval *tmo) {
     if (mid_kind == 1 && mid_cycle == c) { env_cli *cl = env_connect (0); U[4].cli = cl->id; U[4].live = 1; U[4].joins = 1; n = env_ev_listen (ev, n, 0); vx_obs ("  a new user connects"); }
   } else {                                      /* drain: quiet cycles until every queue is empty */
     int pending = 0;
-    for (int i = 0; i < NU; i++) if (U[i].live && U[i].connected && has_complete (&U[i])) pending = 1;
+    for (int i = 0; i < NU; i++) if (U[i].live && U[i].connected && U[i].deadw != 2 && has_complete (&U[i])) pending = 1;
     if (pending && drains < 6) { drains++; cycle_no = 5 + drains; vx_obs ("cycle %d (quiet)", cycle_no); }
     else {
-      for (int i = 0; i < NU; i++) if (U[i].live && U[i].connected && has_complete (&U[i]))
+      for (int i = 0; i < NU; i++) if (U[i].live && U[i].connected && U[i].deadw != 2 && has_complete (&U[i]))
         fail_hist ("C12:command-never-served", "user %c still has a complete command buffered after %d quiet cycles", letter[i], drains);
       shutdown_sent = 1; env_shutdown ();
       w++;
@@ -228,13 +238,22 @@ static int hook (io_event_t *ev, int max, struct timeval *tmo) {
     }
   }
   /* who must be served in the command phase that follows this wait */
-  if (cycle_no) for (int i = 0; i < NU; i++) U[i].expect = U[i].live && U[i].connected && U[i].logged_on && has_complete (&U[i]);
+  if (cycle_no) for (int i = 0; i < NU; i++) U[i].expect = U[i].live && U[i].connected && U[i].logged_on && has_complete (&U[i]) && !(U[i].deadw == 2);
   for (int i = 0; i < ENV_MAXCLI; i++) {
     env_cli *c = &env_clients[i];
+    if (mid_kind == 3 && i == mid_user - 1) continue;           /* never writable */
     if (nl_client_live (c) && c->registered && (c->interest & EVENT_WRITE) && !c->peer_closed) n = add_cli_event (ev, n, c, EVENT_WRITE);
   }
   w++;
   return n;
+}
+
+/* the user of deviation 3: output stays pending (EWOULDBLOCK) until its peer vanishes, then EPIPE */
+static long send_hook (env_cli *c, const void *buf, size_t len) {
+  (void) buf;
+  if (mid_kind == 3 && c->id == mid_user - 1)      /* client ids equal the connect order: user 1..3 is client 0..2 */
+    return U[mid_user].deadw == 2 ? -EPIPE : -EWOULDBLOCK;
+  return (long) len;
 }
 
 static void body (void) {
@@ -250,26 +269,43 @@ static void body (void) {
     int s;
     if (i == 0) {               /* console lines are always whole lines */
       int list[16], nl = 0;
-      for (int k = 0; k < nscripts; k++) if (!scripts[k].partial) list[nl++] = k;
+      for (int k = 0; k < nscripts; k++) {
+        if (scripts[k].partial) continue;
+        /* --console-scripts=3 (quick tier): no line / two lines, one per cycle / three lines in one chunk */
+        if (console_scripts == 3 && !((scripts[k].n == 0) || (scripts[k].n == 2 && scripts[k].spread) || (scripts[k].n == 3 && !scripts[k].spread))) continue;
+        list[nl++] = k;
+      }
       s = list[vx_choose_free (nl, lab)];
     } else { s = vx_choose_free (nscripts, lab); nlive_net++; }
     U[i].n = scripts[s].n; U[i].partial = scripts[s].partial; U[i].spread = scripts[s].spread;
   }
   for (int i = 1; i <= 3; i++) if (U[i].live) { char lab[28]; snprintf (lab, sizeof lab, "cmode_%c", letter[i]); U[i].cmode = vx_choose (2, lab); }
   {
-    int list[8], kind[8], nl = 0;
+    int list[MAXSPECIAL], kind[MAXSPECIAL], nl = 0;
     list[nl] = -1; kind[nl++] = 0;
     for (int i = 0; i <= 3; i++) if (U[i].live && U[i].n >= 1 && !U[i].cmode) { list[nl] = i; kind[nl++] = 1; }
     for (int i = 1; i <= 3; i++) if (U[i].live && U[i].n >= 1 && !U[i].cmode) { list[nl] = i; kind[nl++] = 2; }
+    /* `i` / `g`: the first line's handler calls input_to(fn, F) / get_char(fn, F) while the same user has further lines
+     * typed ahead; offered for the first such user of the arrangement (every user is "the first" in some layout) */
+    int fu = -1;
+    for (int i = 0; i <= 3 && fu < 0; i++) if (U[i].live && U[i].n >= 2 && !U[i].cmode) fu = i;
+    static const long FW[] = { 0x1000, 0x7fffffff, 0x80, 0, 1, 2, 4, 0x10, 0x20, 0x40, 0x100, 0x400, 0x800 };
+    int first_flag = nl, nit = full_flags ? 13 : 3, ngc = full_flags ? 13 : 1;
+    if (fu >= 0) {
+      for (int k = 0; k < nit; k++) { list[nl] = fu; kind[nl++] = 3; }
+      for (int k = 0; k < ngc; k++) { list[nl] = fu; kind[nl++] = 4; }
+    }
     int c = vx_choose (nl, "special");
+    if (c >= first_flag) fl_word = FW[kind[c] == 3 ? c - first_flag : c - first_flag - nit];
     if (!c && force_m && nl > 1) c = 1;        /* self-test only: the first candidate's first line is `m` without costing a deviation */
     if (c) U[list[c]].special = kind[c];
   }
   {
-    int mk[20], mu[20], mc[20], nl = 0;
+    int mk[40], mu[40], mc[40], nl = 0;
     mk[nl] = 0; mu[nl] = 0; mc[nl++] = 0;
     for (int c = 1; c <= midcycles; c++) { mk[nl] = 1; mu[nl] = 4; mc[nl++] = c; }
     for (int i = 1; i <= 3; i++) if (U[i].live) for (int c = 1; c <= midcycles; c++) { mk[nl] = 2; mu[nl] = i; mc[nl++] = c; }
+    for (int i = 1; i <= 3; i++) if (U[i].live) for (int c = 1; c <= midcycles; c++) { mk[nl] = 3; mu[nl] = i; mc[nl++] = c; }
     int c = vx_choose (nl, "mid");
     mid_kind = mk[c]; mid_user = mu[c]; mid_cycle = mc[c];
   }
@@ -280,12 +316,14 @@ static void body (void) {
   object_t *po = find_object_by_name ("/c12/plan");
   for (int i = 1; i <= 3; i++) { push_number (console + i - 1); push_number (U[i].live ? U[i].cmode : 0); hx_apply (po, "set_mode", 2); }
   if (selftest == 2) { push_number (2); hx_apply (po, "set_st", 1); }
-  vx_obs ("console=%d keep=%d mid=%d/%c/%d", console, keep, mid_kind, letter[mid_user], mid_cycle);
+  push_number (fl_word); hx_apply (po, "set_fl", 1);
+  vx_obs ("console=%d keep=%d mid=%d/%c/%d flags=0x%lx", console, keep, mid_kind, letter[mid_user], mid_cycle, fl_word);
   for (int i = 0; i <= 3; i++) if (U[i].live) vx_obs ("  user %c: n=%d partial=%d spread=%d cmode=%d special=%d", letter[i], U[i].n, U[i].partial, U[i].spread, U[i].cmode, U[i].special);
   MAIN_OPTION (console_mode) = console;
   env_isatty_value = 1;
   env_console_capture = 1;
   env_wait_hook = hook;
+  env_send_hook = send_hook;
   nl_log_pos = lseek (2, 0, SEEK_END);
   backend ();
   if (!shutdown_sent) fail_hist ("C12:backend-returned-early", "backend() returned after %d waits", w);
@@ -298,6 +336,8 @@ int main (int argc, char **argv) {
   vx_init_args (argc, argv);
   selftest = (int) vx_opt_long ("selftest", 0);
   force_m = (int) vx_opt_long ("force-m", 0);
+  console_scripts = (int) vx_opt_long ("console-scripts", 6);
+  full_flags = (int) vx_opt_long ("full-flags", 0);   /* 1: all 13 flag words for input_to and get_char; 0: {0x1000, 0x7fffffff, 0x80} / {0x1000} */
   midcycles = (int) vx_opt_long ("midcycles", 4);      /* mid-cycle connect / hang-up placed in cycles 1..midcycles */
   if (midcycles < 0) midcycles = 0;
   if (midcycles > 4) midcycles = 4;
